@@ -13,6 +13,7 @@ import (
 	"github.com/jdillenkofer/pithos/internal/storage/database/repository/partregistry"
 	"github.com/jdillenkofer/pithos/internal/storage/metadatapart/metadatastore"
 	"github.com/jdillenkofer/pithos/internal/storage/metadatapart/partstore"
+	"github.com/jdillenkofer/pithos/internal/verifhook"
 	"go.opentelemetry.io/otel"
 	"go.opentelemetry.io/otel/trace"
 )
@@ -179,6 +180,7 @@ func (partGC *partGC) runGCWithContext(ctx context.Context) error {
 	ctx, span := partGC.tracer.Start(ctx, "PartGarbageCollector.runGC")
 	defer span.End()
 	cutoff := time.Now().UTC().Add(-partGC.graceWindow)
+	verifhook.At("gc.begin", ctx)
 	var observations []partregistry.Reconciliation
 	if err := database.WithTx(ctx, partGC.db, &sql.TxOptions{ReadOnly: true}, func(ctx context.Context, tx database.Tx) error {
 		var err error
@@ -187,6 +189,7 @@ func (partGC *partGC) runGCWithContext(ctx context.Context) error {
 	}); err != nil {
 		return err
 	}
+	verifhook.At("gc.observed", len(observations))
 	for start := 0; start < len(observations); start += 256 {
 		end := min(start+256, len(observations))
 		if err := database.WithTx(ctx, partGC.db, &sql.TxOptions{ReadOnly: false}, func(ctx context.Context, tx database.Tx) error {
@@ -213,6 +216,7 @@ func (partGC *partGC) runGCWithContext(ctx context.Context) error {
 			return err
 		}
 	}
+	verifhook.At("gc.reconciled")
 	// Pruning and backfill are idempotent and deliberately isolated from scans.
 	if err := database.WithTx(ctx, partGC.db, &sql.TxOptions{ReadOnly: false}, func(ctx context.Context, tx database.Tx) error {
 		indexed, err := partGC.partDedupIndexRepository.FindAllPartIds(ctx, tx.SqlTx())
@@ -239,6 +243,7 @@ func (partGC *partGC) runGCWithContext(ctx context.Context) error {
 	}
 	numDeletedParts := 0
 	for _, store := range partGC.partStores.All() {
+		verifhook.At("gc.store", store)
 		var candidates []partstore.PartId
 		if err := database.WithTx(ctx, partGC.db, &sql.TxOptions{ReadOnly: true}, func(ctx context.Context, tx database.Tx) error {
 			ids, err := store.GetPartIds(ctx, tx)
@@ -254,6 +259,7 @@ func (partGC *partGC) runGCWithContext(ctx context.Context) error {
 		}); err != nil {
 			return err
 		}
+		verifhook.At("gc.candidates", store, candidates)
 		for start := 0; start < len(candidates); start += 256 {
 			end := min(start+256, len(candidates))
 			var external []partstore.PartId
@@ -280,7 +286,9 @@ func (partGC *partGC) runGCWithContext(ctx context.Context) error {
 			}); err != nil {
 				return err
 			}
+			verifhook.At("gc.condemned", store, external)
 			for _, id := range external {
+				verifhook.At("gc.extdelete.before", store, id)
 				if err := store.DeletePart(ctx, nil, id); err != nil {
 					slog.Warn("post-commit part deletion failed; leaving orphan for next GC", "part_id", id.String(), "error", err)
 				}
